@@ -94,6 +94,11 @@ fn size_values(enc: &EncodedLzma, ops: &[Op], l: u64) -> Vec<(u64, &'static str)
         (l + (1u64 << 32), "L+2^32"),
         (l + (3u64 << 32), "L+3*2^32"),
         (l.wrapping_sub(1u64 << 32), "L-2^32 (wrapped)"),
+        (1u64 << 31, "2^31"),
+        ((1u64 << 32) - 1, "2^32-1"),
+        (1u64 << 32, "2^32"),
+        (l + (1u64 << 31), "L+2^31"),
+        (l | (1u64 << 63), "L|2^63"),
     ];
     if l > 0 {
         v.push((l - 1, "L-1"));
@@ -128,7 +133,7 @@ impl Property for C08 {
         "C08"
     }
     fn cases(&self, tier: Tier) -> u32 {
-        tier.pick(4_000, 40_000)
+        tier.pick(2_500, 25_000)
     }
     fn strategy(&self, tier: Tier) -> BoxedStrategy<Self::Abs> {
         let n = tier.pick(24, 40);
